@@ -202,6 +202,9 @@ UNSUPPORTED: t.Dict[str, t.Callable[[], t.Any]] = {
     'enum-non-data-values': lambda: _ObjE,
     'Annotated-unknown-metadata': lambda: t.Annotated[int, 'some metadata'],
     'Tagged-non-union': lambda: _tagged_non_union(),
+    'bare-Annotated': lambda: t.Annotated,
+    'PaneBase-itself': lambda: __import__('pane').PaneBase,
+    'Tagged-external-of-one-name': lambda: _tagged_arity(),
     'Tagged-member-without-tag': lambda: _tagged_missing(False),
     'Tagged-optional-union': lambda: _tagged_missing(True),
     'Pattern[int]': lambda: t.Pattern[int],   # type: ignore
@@ -216,6 +219,14 @@ UNSUPPORTED: t.Dict[str, t.Callable[[], t.Any]] = {
 def _tagged_non_union():
     from pane.annotations import Tagged
     return t.Annotated[int, Tagged('x')]
+
+
+def _tagged_arity() -> t.Any:
+    """Tagged(..., external=(tag_key,)): the adjacent layout needs two names."""
+    from pane.annotations import Tagged
+    _tagged_missing(False)
+    (Cat, Dog, _) = _CLS_CACHE['tagged-missing']
+    return t.Annotated[t.Union[Cat, Dog], Tagged('kind', external=('t',))]      # type: ignore
 
 
 def _tagged_missing(optional: bool) -> t.Any:
